@@ -151,9 +151,12 @@ def run(ctx):
             impl = 'raise'
             strict = True
         mutated = what is not plain and not isinstance(what, LazyDict) and dict(what) != plain
+        offered = what
         what = plain
         elems = getattr(pobj, fname)
-        oks = [elem_ok(e, what, iobj) for e in elems]
+        # judged on the object that was offered: a rule applied to the whole value may look at its class or its text
+        # (RegexMatch matches str(value), and the text of a defaultdict is not the text of a dict)
+        oks = [elem_ok(e, offered, iobj) for e in elems]
         want = 'ok T' if any(oks) else 'ok F'
         desc = {'policy': repr(pol), 'field': f, 'what': repr(what), 'inquiry': repr(inq), 'elem_ok': oks}
         if m == 'bad-op':
